@@ -238,7 +238,7 @@ def rule_trunc(E, R):
             for op, l, r, fr, certain in sem.weak_cmps(t.pc):
                 rl, rr = sem.is_method(l, "len"), sem.is_method(r, "len")
                 if certain and rl is not None and rr is not None and sem.root_local(S, rl, fr) is lv and sem.root_local(S, rr, fr) is out_b:
-                    arg = sem.is_method(t.node["args"][0], "len")
+                    arg = sem.is_method(S.resolve(t.node["args"][0], t.frame).node, "len")
                     f["truncate"] = (op, "len(operand) vs len(acc)", "to len(operand)" if arg is not None and sem.root_local(S, arg, t.frame) is lv else "to ?")
             for z in inner:
                 if z.node.get("k") == "MethodCall" and z.node["m"] == "zip":
